@@ -33,6 +33,10 @@ def dagOps (w : List String) : Option String :=
     match parseParents ps, parseEntries es, v.toNat? with
     | some ps, some es, some v => some (resStr (readAt (Dag.ofList ps) (entriesOfList es) v))
     | _, _, _ => some "bad-op"
+  | ["resolve.point", ps, es, v] =>
+    match parseParents ps, parseEntries es, v.toNat? with
+    | some ps, some es, some v => some (resStr (pointRead (Dag.ofList ps) (entriesOfList es) v))
+    | _, _, _ => some "bad-op"
   | ["resolve.survivor", ps, es, v] =>
     match parseParents ps, parseEntries es, v.toNat? with
     | some ps, some es, some v => some (resStr (readAtSurvivor (Dag.ofList ps) (entriesOfList es) v))
